@@ -748,7 +748,14 @@ func c16AddPassThrough(p *idl.Program) {
 	pass := &idl.File{Path: "zzpass.thrift", Namespaces: []*idl.Namespace{{Lang: "go", Name: "vf.zzpass"}}}
 	pass.Defs = []*idl.Def{{Kind: idl.KStruct, Name: "ZzPass", File: pass, Fields: []*idl.Field{{ID: 1, ExplicitID: true, Type: i32(), Name: "a"}}}}
 	pass.Includes = []*idl.Include{{File: leaf, Path: "zzleaf.thrift"}}
+	// a file that is kept only for its enum (no constant, no typedef, nothing referenced): its unreferenced struct
+	// and its own unneeded include must still go
+	only := &idl.File{Path: "zzenum.thrift", Namespaces: []*idl.Namespace{{Lang: "go", Name: "vf.zzenum"}}}
+	only.Defs = []*idl.Def{
+		{Kind: idl.KEnum, Name: "ZzOnly", File: only, EnumVals: []*idl.EnumVal{{Name: "ZZ_ONLY", Explicit: true, Value: 1}}},
+		{Kind: idl.KStruct, Name: "ZzStale", File: only, Fields: []*idl.Field{{ID: 1, ExplicitID: true, Type: i32(), Name: "a"}}},
+	}
 	main := p.Main()
-	main.Includes = append(main.Includes, &idl.Include{File: pass, Path: "zzpass.thrift"})
-	p.Files = append(p.Files, pass, leaf)
+	main.Includes = append(main.Includes, &idl.Include{File: pass, Path: "zzpass.thrift"}, &idl.Include{File: only, Path: "zzenum.thrift"})
+	p.Files = append(p.Files, pass, leaf, only)
 }
